@@ -828,9 +828,9 @@ def e2e_worlds(tier):
 
 
 CHECKS = [
-    Check("resources_machine", exec_res, strategy=res_strategy, budget={"quick": 3000, "thorough": 120000}),
-    Check("worker_machine", exec_worker, strategy=worker_strategy, budget={"quick": 3000, "thorough": 120000}),
-    Check("pools_machine", exec_pools, strategy=pools_strategy, budget={"quick": 2000, "thorough": 80000}),
+    Check("resources_machine", case_timeout=60, timeout_is_violation=True, execute=exec_res, strategy=res_strategy, budget={"quick": 3000, "thorough": 120000}),
+    Check("worker_machine", case_timeout=60, timeout_is_violation=True, execute=exec_worker, strategy=worker_strategy, budget={"quick": 3000, "thorough": 120000}),
+    Check("pools_machine", case_timeout=60, timeout_is_violation=True, execute=exec_pools, strategy=pools_strategy, budget={"quick": 2000, "thorough": 80000}),
     Check("sim_ledger", sim_execute([J.judge_c04_e2e], lambda rec: rec.mon.idle_checks > 1 and rec.mon.ledger_ops > 2), strategy=e2e_worlds,
           budget={"quick": 1000, "thorough": 30000}),
 ]
